@@ -117,6 +117,13 @@ func afLen(m *ref.Packet) interface{} {
 }
 
 func c02SetPayload(b [188]byte, m *ref.Packet, data []byte) *hx.Failure {
+	if len(data) == 0 && data != nil {
+		// zero bytes can be handed over as an empty slice or as nil: the same request
+		if f := c02SetPayload(b, m, nil); f != nil {
+			f.Msg += " [data = nil]"
+			return f
+		}
+	}
 	p := packet.Packet(b)
 	keep := clone(data)
 	n, err := p.SetPayload(data)
